@@ -74,6 +74,11 @@ LATE = ['#program always.\n{ p }.\n#program initial.\n:- not &tel { 2 > p }.', '
         '#program always.\n{ p }.\n&tel { 2 > q } :- p.\n:- not &tel { >* (q | p) }.', '#program always.\n{ p; q }.\n#program initial.\n:- not &del { &true ;; &true .>? p }.\n#program dynamic.\n:- &del { * q .>* p }.']
 
 
+# &final inside &del (a formula built by create_dynamic_formula itself, not from the text) in runs one after the other
+LATE += ['#program always.\n{ p }.\n:- not &del { * &true .>? &final }.\nq :- not not &del { p .>* &final }.', '#program always.\n{ p; r }.\n#program initial.\n:- not &del { ? p ;; &true .>? &final }.']
+OVERLAP += [('#program always.\n{ p }.\nq :- not &del { * &true .>? &final }.', '#program always.\n{ r; p }.\nw :- not not &del { p .>? &final }.\n:- not &del { * &true .>? &final }.')]
+
+
 def canon(r):
     if r.get('status') != 'ok':
         return ('error', r.get('type'), r.get('msg'))
